@@ -186,6 +186,12 @@ BinSelf(o) ==                                     \* res = ra <op> ra
   /\ Log([op |-> "binself", o |-> o])
   /\ UNCHANGED <<rows, data, arr, lengths, prev>>
 
+Invert ==                                         \* res = ~ra : the bitwise complement -x - 1 of every element
+  /\ CanStep
+  /\ res' = RowsRes([k \in 1..N |-> [c \in 1..Len(rows[k]) |-> 0 - rows[k][c] - 1]])
+  /\ Log([op |-> "invert"])
+  /\ UNCHANGED <<rows, data, arr, lengths, prev>>
+
 (* augmented arithmetic  ra <op>= kk : Python rebinds the name to the NEW object; the old
    object (kept in `prev`) must still hold the old value *)
 Augmented(o, kk) ==
@@ -226,6 +232,7 @@ Step ==
   \/ \E l1 \in 1..MaxLen, l2 \in 0..MaxLen, v \in Fresh, f \in BOOLEAN : AppendRows(l1, l2, v, f)
   \/ \E o \in Ops, kk \in {1, 2} : BinScalar(o, kk)
   \/ \E o \in Ops : BinSelf(o)
+  \/ Invert
   \/ \E o \in Ops, kk \in {1, 2} : Augmented(o, kk)
   \/ \E f \in {"max", "min", "any", "all"} : Reduce(f)
   \/ \E v \in Fresh : CallerScribbles(v)
@@ -241,9 +248,9 @@ Coherent == /\ arr = Partition(data, lengths)
             /\ rows = arr
 WellFormedAlways == WellFormed(rows)
 (* operators keep the row structure and never alter their operands *)
-OperandsUntouched == [][(Len(hist') > Len(hist) /\ hist'[Len(hist')].op \in {"binscalar", "binself", "reduce"})
+OperandsUntouched == [][(Len(hist') > Len(hist) /\ hist'[Len(hist')].op \in {"binscalar", "binself", "invert", "reduce"})
                           => (rows' = rows /\ data' = data /\ arr' = arr /\ lengths' = lengths)]_vars
-StructureKept == (hist # <<>> /\ hist[Len(hist)].op \in {"binscalar", "binself"}) =>
+StructureKept == (hist # <<>> /\ hist[Len(hist)].op \in {"binscalar", "binself", "invert"}) =>
                     (res.k = "rows" /\ Lengths(res.v) = lengths)
 AugmentedLeavesOldObject == [][(Len(hist') > Len(hist) /\ hist'[Len(hist')].op = "augmented") => prev' = rows]_vars
 LengthsOnlyGrowByAppend == [][(Len(hist') > Len(hist) /\ hist'[Len(hist')].op # "append") => lengths' = lengths]_vars
